@@ -959,11 +959,6 @@ def run(ctx: Ctx):
                 ctx.violation(f"correspondence lemma {which}: Gallina model and implementation differ (status / objective / path / distances)",
                               rep, no_input=True)
 
-    # ---- round-2 input-shape families for all ten C11 functions (harness/props/C11_shapes.py)
-    from harness.props import C11_shapes
-
-    C11_shapes.run_shapes(ctx)
-
     # ---- part B (dijkstra, astar, astar_grid), built by another agent
     try:
         from harness.props import C11_bestfirst  # type: ignore
@@ -974,6 +969,12 @@ def run(ctx: Ctx):
     if (COQ / "Props" / "C11_bestfirst.v").exists():
         ctx.proof_step(["C11"], props_file="Props/C11_bestfirst.v")
     if (COQ / "Props" / "C11_deep.v").exists(): ctx.proof_step(["C11"], props_file="Props/C11_deep.v")
+
+    # ---- round-2/3 input-shape families for all ten C11 functions (harness/props/C11_shapes.py); run last so that the
+    # random stream seen by part B does not depend on how many cases the shape families draw
+    from harness.props import C11_shapes
+
+    C11_shapes.run_shapes(ctx)
 
 
 def replay(obj):
